@@ -33,8 +33,8 @@ SCOPES = {"declarations", "completion", "cleanup"}
 class Observer:
     def __init__(self, ctx, run):
         self.ctx = ctx
-        self.attached_trees: set[str] = set()
-        self.by_recycle: set[tuple[str, str]] = set()
+        self.attached: set[tuple[str, str]] = set()
+        self.by_recycle: set[str] = set()
 
     def __call__(self, run, op, line, ans):
         legal = run.legal[-1]
@@ -44,18 +44,28 @@ class Observer:
             return
         sn = koracles.Snapshot(run.wf)
         self.ctx.stats.count("oracle-states-checked")
-        before = self.attached_trees
-        self.attached_trees = {n[1] for n in sn.nodes.values() if n[0] == "st" and not n[3]}
+        before = self.attached
+        self.attached = {(n[0], n[1]) for n in sn.nodes.values() if not n[3]}
+        came_back = self.attached - before if op == "define" else set()
         for b in koracles.ownership_invariants(sn)[:2]:
             words = b.split(" ")
             sig = "ownership-glob-matches-product" if words[1] == "glob" else "ownership-" + "-".join(words[1:4])
+            # A full recycle (`define` of a detached step with unchanged arguments) brings the whole
+            # product subtree of that step back without validating it against what was declared while
+            # it was detached (known finding F21): a static tree, or a file beneath a tree declared in
+            # the meantime, or a tree nested in another.
+            involved = []
             if words[1:4] == ["file", "under", "static"]:
-                tree, path = words[5], words[-1]
-                # The tree came back with a recycled creator (it was detached before this `define`),
-                # while the path beneath it had been declared by someone else in the meantime.
-                if (op == "define" and tree not in before) or (tree, path) in self.by_recycle:
-                    self.by_recycle.add((tree, path))
-                    sig += ":tree-reattached-by-recycle"
+                involved = [("st", words[5]), ("file", words[-1])]
+            elif words[1:4] == ["nested", "static", "trees:"]:
+                involved = [("st", words[4]), ("st", words[-1])]
+            if involved:
+                key = "|".join(x[1] for x in involved)
+                back = [x for x in involved if x in came_back]
+                if back or key in self.by_recycle:
+                    self.by_recycle.add(key)
+                    kind = "tree" if not back or back[0][0] == "st" else "file"
+                    sig = sig.rstrip(":") + f":{kind}-reattached-by-recycle"
             self.ctx.finding(Finding(PID, sig[:80], f"after '{kcorr.decode_line(line)[:100]}': {b}",
                                      {"violation": b, "requests": [kcorr.decode_line(x) for x in run.lines][-15:],
                                       "protocol_lines": list(run.lines)}))
@@ -139,10 +149,27 @@ def template(msg: str) -> str:
     return msg
 
 
+def named_paths(msg: str) -> set:
+    """The generator's paths that a message names."""
+    import re
+
+    known = set(PATHS) | {t.rstrip("/") + "/" for t in TREES}
+    named = set(re.findall(r"\(([^()]*)\)", msg))
+    tail = re.search(r": ([^:]*)$", msg)
+    if tail:
+        named.add(tail.group(1).strip())
+    return {x for x in named if x in known}
+
+
 def message_class(m1: str, m2: str) -> str:
     t1, t2 = sorted([template(m1), template(m2)])
     if t1 == t2:
         return "same-sentence-names-different-path"
+    p1, p2 = named_paths(m1), named_paths(m2)
+    if p1 and p2 and not (p1 & p2):
+        # the pair has two independent conflicts (on different paths); each order reports the one
+        # its own request meets first
+        return "different-conflict-of-the-pair-reported"
     if "volatile" in t1 and "volatile" in t2 and "nput" in t1 and "nput" in t2:
         return "input-versus-volatile-wording"
     if "subdirectory of an existing static tree" in t1 + t2 and "parent directory of an existing static tree" in t1 + t2:
